@@ -35,6 +35,7 @@ type Step struct {
 	Faults   []world.Fault `json:"faults,omitempty"`
 	Iter     string        `json:"iter,omitempty"`
 	NoGo     bool          `json:"nogo,omitempty"` // `go` not on PATH
+	EnvTags  bool          `json:"envtags,omitempty"` // the environment's GOFLAGS carries build tags (not an option of the invocation: nothing may change)
 }
 
 // Case is one simulated history.
@@ -72,6 +73,9 @@ func (s Step) String() string {
 	}
 	if s.NoGo {
 		sb.WriteString(" nogo")
+	}
+	if s.EnvTags {
+		sb.WriteString(" GOFLAGS=-tags")
 	}
 	sb.WriteString("]")
 	return sb.String()
@@ -280,6 +284,7 @@ func genCmd(r *rand.Rand, prop string, names, nonlib []string, cur map[string]st
 			st.Tags = pick(r, []string{"foo", "foo bar"})
 		}
 	}
+	st.EnvTags = r.IntN(10) == 0
 	st.Iter = weighted(r, []string{"asc", "desc", "shuffle"}, []int{30, 30, 40})
 	if st.Iter == "shuffle" {
 		st.Iter = fmt.Sprintf("shuffle:%d", r.IntN(1000))
